@@ -151,7 +151,7 @@ func mdatRanges(in, out *mp4.File) string {
 				size += sz(ot, sample+k)
 			}
 			sample += n
-			if c-1 < len(it.offsets) {
+			if c-1 < len(it.offsets) && size > 0 { // an empty chunk (size-0 samples only) copies nothing
 				ps = append(ps, piece{it.offsets[c-1], ot.offsets[c-1], size})
 			}
 		}
